@@ -110,9 +110,12 @@ Put(t, r, n) ==
 PutExt(t, r, n) ==
     /\ st = "open"
     /\ <<t, r>> \notin Keys(mem)
-    /\ mem' = Put1(mem, <<t, r>>, [len |-> n, kind |-> "ext"])
-    /\ Persist(mem')
-    /\ Log("PutExt", [tag |-> t, ref |-> r, n |-> n], [ret |-> n, len |-> n])
+    /\ IF t >= 32768          \* extended tags (bit 15 set) have no special variant: the call is refused, nothing changes
+       THEN /\ Log("PutExt", [tag |-> t, ref |-> r, n |-> n], [ret |-> FAIL, len |-> FAIL])
+            /\ UNCHANGED <<mem, disk>>
+       ELSE /\ mem' = Put1(mem, <<t, r>>, [len |-> n, kind |-> "ext"])
+            /\ Persist(mem')
+            /\ Log("PutExt", [tag |-> t, ref |-> r, n |-> n], [ret |-> n, len |-> n])
     /\ UNCHANGED <<st, cache, ndds>>
 
 \* Hdeldd(tag, ref)
